@@ -66,3 +66,12 @@ Proof. exact migrate_current_id. Qed.
 Theorem c13_migrate_newer_refused : forall v st, 2 < v -> migrate 2 {| d_ver := v; d_st := st |} = None.
 Proof. exact migrate_newer_refused. Qed.
 Print Assumptions c13_migrate_keeps_ledger.
+
+(* How the persistent driver reads what it wrote: gob does not store zero values and leaves the
+   fields that are absent from the stored bytes as they are in the value it decodes into. A value
+   that outlives one read -- kept outside the transaction closure that the driver's update() runs
+   again after a conflict, or outside the loop whose iterations each decode into it -- carries the
+   previous read's fields into the next one, and what was acknowledged is not what is read back
+   (D31). In the source as it is no value handed to getItem does (regenerated fact). *)
+Theorem c13_decode_targets_are_fresh : badger_stale_decode_targets = [].
+Proof. reflexivity. Qed.
